@@ -101,8 +101,12 @@ def run_shard(shard, ctx):
                                 if split is None:
                                     d.update(Xs, Yd)
                                 else:
-                                    d.update(Xs[:split], Yd[:split]); d.update(Xs[split:], Yd[split:])
+                                    d.update(Xs[:split], Yd[:split])
+                                    if split > 1: d.compute()                 # a result asked for between batches
+                                    d.update(Xs[split:], Yd[split:])
                                 got = d.compute()
+                                if split is not None or shp != shapes[0]:
+                                    got = d.compute()                         # asked again: still the statistic of all processed traces
                             except Exception as e:
                                 col.violation('C03/%s/raised' % dist, 'unexpected %s: %s' % (type(e).__name__, e),
                                               {'x_alphabet': ax, 'y_alphabet': ay, 'N': n, 'tdtype': tdt, 'ddtype': ddt, 'shape': shp, 'split': split, 'prec': prec})
